@@ -229,6 +229,7 @@ func (c *LocalReusableWorkflowCache) FindMetadata(spec string) (*ReusableWorkflo
 	}
 
 	c.debug("New reusable workflow metadata at %s: %v", file, m)
+	verifPoint("rwcache.write.file", spec)
 	c.writeCache(spec, m)
 	return m, nil
 }
@@ -313,6 +314,7 @@ func (c *LocalReusableWorkflowCache) WriteWorkflowCallEvent(wpath string, event 
 		}
 	}
 
+	verifPoint("rwcache.write.ast", spec)
 	c.mu.Lock()
 	c.cache[spec] = m
 	c.mu.Unlock()
